@@ -184,7 +184,9 @@ const TCH: &[u8] = b"abcdefghijklmnopqrstuvwxyzABCDEFGHIJKLMNOPQRSTUVWXYZ0123456
 
 /// a structured, RFC-conforming request head: (structure encoding, rendered bytes)
 pub fn gen_head(rng: &mut Rng) -> (String, Vec<u8>) {
-    let methods: [&[u8]; 12] = [b"GET", b"POST", b"HEAD", b"PUT", b"PATCH", b"DELETE", b"OPTIONS", b"TRACE", b"CONNECT", b"PURGE", b"get", b"X"];
+    // (extension methods that extend or are cut from a standard one: seed C02-i compared the first four bytes only)
+    let methods: [&[u8]; 24] = [b"GET", b"POST", b"HEAD", b"PUT", b"PATCH", b"DELETE", b"OPTIONS", b"TRACE", b"CONNECT", b"PURGE", b"get", b"X",
+                                b"POSTS", b"POSTPONE", b"POSTpone", b"GETS", b"GE", b"PUTT", b"HEADS", b"PATC", b"DELETED", b"OPTION", b"TRACES", b"Post"];
     let m: Vec<u8> = if rng.chance(1, 8) { let l = *rng.pick(&[1usize, 2, 7, 8, 9, 20]); word(rng, b"ABCDEFGHIJKLMNOPQRSTUVWXYZabcdefghijklmnopqrstuvwxyz", l) } else { rng.pick(&methods).to_vec() };
     let path = |rng: &mut Rng| -> Vec<u8> {
         let mut p = vec![b'/'];
@@ -307,6 +309,14 @@ fn inputs(ctx: &Ctx, rng: &mut Rng, scale: usize, mut f: impl FnMut(bool, &[u8],
                 f(true, &b, "byte-sweep");
                 if ctx.thorough { let mut c = s.clone(); c.insert(pos, v); f(true, &c, "byte-sweep"); }
             }
+        }
+    }
+    // (ii') bytes in front of the request line: empty lines, a lone CR or LF, spaces (seed C04-j swallowed leading CRLF pairs)
+    for _ in 0..(n / 20).max(20) {
+        let (_, b) = gen_head(rng);
+        for pre in [&b"\r\n"[..], b"\r\n\r\n", b"\n", b"\r", b" ", b"\r\n ", b"\n\r\n"] {
+            let mut c = pre.to_vec(); c.extend(&b);
+            f(true, &c, "bytes-before-request-line");
         }
     }
     // (iii') Content-Length lines that are individually or jointly invalid, in both orders, and long field lines
